@@ -2,6 +2,8 @@
 // This file is part of peginator
 // Licensed under the MIT license. See LICENSE file in the project root for details.
 
+use std::cell::RefCell;
+
 use anyhow::Result;
 use proc_macro2::TokenStream;
 
@@ -20,7 +22,37 @@ impl Codegen for IncludeRule {
     }
 
     fn get_fields<'a>(&'a self, grammar: &'a Grammar) -> Result<Vec<FieldDescriptor<'a>>> {
+        let _guard = IncludeGuard::enter(&self.rule)?;
         self.included_rule_definition(grammar)?.get_fields(grammar)
+    }
+}
+
+thread_local! {
+    /// The rules whose bodies are currently being expanded by an include (innermost last).
+    static INCLUDE_STACK: RefCell<Vec<String>> = const { RefCell::new(Vec::new()) };
+}
+
+/// Detects rules that (directly or indirectly) include themselves, which would recurse forever.
+struct IncludeGuard;
+
+impl IncludeGuard {
+    fn enter(rule: &str) -> Result<Self> {
+        INCLUDE_STACK.with(|stack| {
+            let mut stack = stack.borrow_mut();
+            if stack.iter().any(|r| r == rule) {
+                anyhow::bail!("Include cycle detected: >{} >{rule}", stack.join(" >"));
+            }
+            stack.push(rule.to_string());
+            Ok(IncludeGuard)
+        })
+    }
+}
+
+impl Drop for IncludeGuard {
+    fn drop(&mut self) {
+        INCLUDE_STACK.with(|stack| {
+            stack.borrow_mut().pop();
+        });
     }
 }
 
